@@ -2,6 +2,7 @@ package main
 
 import (
 	"fmt"
+	"os"
 	"path/filepath"
 	"time"
 )
@@ -9,6 +10,7 @@ import (
 type floor struct {
 	Class   string
 	MinFrac float64
+	Of      string // denominator class ("" = all evaluations)
 }
 
 type spec struct {
@@ -45,9 +47,11 @@ func hTest(pkg, run string, o hOpts) func(id, tier string, seed int64, replay st
 			args = append(args, "-tags", "verif", "-overlay", filepath.Join(verifRoot, "overlay", "overlay.json"))
 		}
 		args = append(args, "./"+pkg)
-		out, code, _ := runCmd(filepath.Join(verifRoot, "h"), nil, 15*time.Minute, goBin, args...)
-		if code != 0 {
-			return nil, fmt.Errorf("go %v failed:\n%s", args, tail(out, 40))
+		if _, err := os.Stat(bin); err != nil { // built once per driver invocation
+			out, code, _ := runCmd(filepath.Join(verifRoot, "h"), nil, 15*time.Minute, goBin, args...)
+			if code != 0 {
+				return nil, fmt.Errorf("go %v failed:\n%s", args, tail(out, 40))
+			}
 		}
 		shards, to := o.QShards, o.QTimeout
 		if tier == "thorough" {
@@ -70,11 +74,29 @@ func init() {
 		LevelText: "Exhaustive enumeration of the small and boundary length ranges (every string length 0..70000 and around 2^24, every truncation point of lengths<=600, every non-minimal header, every padding byte, every TL2 size 0..70000 and the 2^16/2^32/2^63 boundaries, bit vectors of every length 0..130) plus rapid-generated contents, each compared with a layout computed independently from the documents. Exploration level: larger lengths and contents are sampled, not enumerated.",
 		LevelNote: "Trusted: the harness' own 20-line reference layout (from TLPrimer/TL2Primer), Go runtime. pkg/basictl is compiled from /repo's working tree on every run.",
 		Technique: "property-based testing: exhaustive small-range enumeration + rapid generators against an independent reference layout",
-		Rule: "exhaustive over string lengths 0..70000 (+2^24 boundary), all truncation points for lengths<=600, all non-minimal headers, every padding byte; TL2 sizes exhaustive 0..70000 + boundaries; bit vectors 0..130; rapid for random contents. Non-trivial: the encoding has a multi-byte header, padding, or >=2 payload bytes; distinct by (sub-check, input)",
+		Rule:      "exhaustive over string lengths 0..70000 (+2^24 boundary), all truncation points for lengths<=600, all non-minimal headers, every padding byte; TL2 sizes exhaustive 0..70000 + boundaries; bit vectors 0..130; rapid for random contents. Non-trivial: the encoding has a multi-byte header, padding, or >=2 payload bytes; distinct by (sub-check, input)",
 		Assumptions: []string{
 			"the layout oracle is computed by the harness from docs/tldoc.ru.md, TLPrimer and TL2Primer, sharing no code with pkg/basictl",
 			"truncated input must satisfy errors.Is(err, io.ErrUnexpectedEOF) for TL1 strings and TL2 sizes",
 		},
 		Prepare: hTest("props/c33", "^TestC33", hOpts{QShards: 8, TShards: 16, QTimeout: 5 * time.Minute, TTimeout: 30 * time.Minute}),
+	}
+	specs["C37"] = &spec{
+		LevelText:   "Model-based property test: rapid-generated histories of AddAckRange over small, medium, near-2^32 and random-base domains, plus exhaustive enumeration of all histories of 3 ranges over 0..5; after every step the internal prefix+range list (read through an overlay accessor) is compared with a bitset model, the representation invariants are checked, and the ack / resend-request headers are checked against the model.",
+		LevelNote:   "Trusted: bitset model in the harness; overlay accessor file /verif/overlay/udp/verif_export.go (read-only, build tag verif). Domains are wrap-free as the statement says.",
+		Technique:   "property-based testing (rapid), model-based histories with a bitset reference + small exhaustive enumeration",
+		Rule:        "history = 1..40 AddAckRange calls; non-trivial iff some step merged >=2 ranges into one or absorbed a range into the prefix; distinct by the full history",
+		Assumptions: []string{"ranges satisfy from<=to<=2^32-2 (wrap-free domains, as stated)", "headers are built into a fresh header object"},
+		Floors:      []floor{{"merged-ranges", 0.15, ""}, {"absorbed-into-prefix", 0.10, ""}},
+		Prepare:     hTest("props/c37", "^TestC37", hOpts{Overlay: true, QShards: 8, TShards: 16}),
+	}
+	specs["C41"] = &spec{
+		LevelText:   "Model-based property tests: rapid-generated operation histories (mixed, ascending, descending, insert-heavy; key domains 8/32/10^4) applied to the AVL TreeMap and to a Go map + sorted keys; after every step the tree shape (read through an overlay walker) must be in-order equal to the model, AVL-balanced on recomputed subtree heights, and the node allocator must balance. CircularSlice histories (two slices, push/pop/index/IndexRef/Reserve/Clear/Swap/DeepAssign) against Go-slice FIFO models.",
+		LevelNote:   "Trusted: the Go map/slice models in the harness; overlay accessor /verif/overlay/algo/verif_export.go (pre-order walker, counting allocator; build tag verif). Operations whose contract is to panic (Front/PopFront on empty, Index out of range) are not issued.",
+		Technique:   "property-based testing (rapid), model-based operation histories against reference containers, structural invariant after every step",
+		Rule:        "history = 1..150 operations; non-trivial iff >=20 operations and (tree) the root changed by a rotation / (slice) the content wrapped around the buffer end; distinct by the full history",
+		Assumptions: []string{"'balanced' is the AVL condition |h(left)-h(right)|<=1 on real (recomputed) subtree heights"},
+		Floors:      []floor{{"root-rotation", 0.15, "tm"}, {"wrap-around", 0.10, "cs"}},
+		Prepare:     hTest("props/c41", "^TestC41", hOpts{Overlay: true, QShards: 8, TShards: 16}),
 	}
 }
